@@ -11,4 +11,12 @@ def obligations():
     for fsi in range(5):
         for dur in range(9):
             L.append(_g.glue_ob(Ob, 'H1.glue', fsi, dur, 'quick' if (fsi, dur) in quick else 'thorough'))
+    # H2: the per-frame glue (opus_encode_frame_native) below the packetisation glue
+    for mode, fsi, dur, ch, ld, maxb, tier in ((1000, 0, 2, 1, 0, 40, 'thorough'), (1002, 4, 0, 2, 1, 40, 'quick'), (1002, 3, 3, 2, 0, 24, 'thorough'), (1001, 3, 3, 2, 0, 24, 'thorough'),
+                                               (1000, 2, 5, 2, 0, 80, 'thorough'), (1001, 4, 2, 1, 0, 80, 'thorough'), (1001, 3, 3, 2, 0, 80, 'thorough'), (1000, 1, 4, 1, 0, 80, 'thorough'),
+                                               (1002, 2, 1, 1, 0, 80, 'thorough'), (1002, 0, 3, 2, 0, 300, 'thorough'), (1000, 3, 3, 2, 0, 300, 'thorough')):
+        L.append(_g.frame_ob(Ob, 'H2.frame_glue', mode, fsi, dur, ch, ld, tier, maxb=maxb, budget=(900 if tier == 'quick' else 1500)))
+    # H3: multistream per-stream budget split and packing
+    for ns, nc, fsi, dur, tier in ((2, 0, 4, 3, 'quick'), (3, 1, 0, 7, 'quick'), (2, 2, 2, 0, 'thorough'), (1, 1, 3, 2, 'thorough'), (3, 3, 4, 7, 'thorough'), (3, 0, 4, 3, 'thorough'), (1, 0, 4, 3, 'thorough')):
+        L.append(_g.msenc_ob(Ob, 'H3.multistream_packing', ns, nc, fsi, dur, tier))
     return L
